@@ -450,6 +450,20 @@ func (s *APIServer) DecodeRawTransaction(ctx context.Context, in *pb.DecodeRawTr
 	return resp, nil
 }
 
+// releaseDraft frees the inputs the wallet reserved for a transaction that is refused here and
+// never handed to the client.
+func (s *APIServer) releaseDraft(mtxHex string) {
+	serializedTx, err := decodeHexStr(mtxHex)
+	if err != nil {
+		return
+	}
+	var tx wire.MsgTx
+	if err := tx.SetBytes(serializedTx, wire.Packet); err != nil {
+		return
+	}
+	s.massWallet.ClearUsedUTXOMark(&tx)
+}
+
 func (s *APIServer) CreateRawTransaction(ctx context.Context, in *pb.CreateRawTransactionRequest) (*pb.CreateRawTransactionResponse, error) {
 	logging.CPrint(logging.INFO, "api: CreateRawTransaction", logging.LogFormat{"params": in})
 
@@ -526,6 +540,7 @@ func (s *APIServer) CreateRawTransaction(ctx context.Context, in *pb.CreateRawTr
 
 	err = checkTxFeeLimit(s.config, fee)
 	if err != nil {
+		s.releaseDraft(mtxHex)
 		return nil, err
 	}
 
@@ -582,6 +597,7 @@ func (s *APIServer) CreateStakingTransaction(ctx context.Context, in *pb.CreateS
 
 	err = checkTxFeeLimit(s.config, fee)
 	if err != nil {
+		s.releaseDraft(mtxHex)
 		return nil, err
 	}
 
@@ -657,6 +673,7 @@ func (s *APIServer) CreateBindingTransaction(ctx context.Context, in *pb.CreateB
 
 	err = checkTxFeeLimit(s.config, fee)
 	if err != nil {
+		s.releaseDraft(mtxHex)
 		return nil, err
 	}
 
@@ -703,6 +720,7 @@ func (s *APIServer) CreatePoolPkCoinbaseTransaction(ctx context.Context, in *pb.
 	max, _ = max.AddInt(int64(consensus.MASSIP0002SetPoolPkCoinbaseFee))
 	if max.Cmp(fee) < 0 {
 		logging.CPrint(logging.ERROR, "big transaction fee", logging.LogFormat{"fee": fee, "limit": max})
+		s.releaseDraft(mtxHex)
 		st := status.New(ErrAPIBigTransactionFee, ErrCode[ErrAPIBigTransactionFee])
 		return nil, st.Err()
 	}
@@ -766,6 +784,7 @@ func (s *APIServer) AutoCreateTransaction(ctx context.Context, in *pb.AutoCreate
 
 	err = checkTxFeeLimit(s.config, fee)
 	if err != nil {
+		s.releaseDraft(mtxHex)
 		return nil, err
 	}
 
